@@ -12,7 +12,7 @@
   `io::queue` wrappers push/unshift/pop/shift/write, `mpt_queue_load/save` (descriptor = byte source/sink).
   `io::queue::read/peek` and `pipe<T>::elements()` (as `peek` of everything).
 -/
-import MptModel.Lemmas.Ring5
+import MptModel.Lemmas.Ring6
 
 namespace Mpt.C13
 open Mpt Mpt.Ring
@@ -362,12 +362,41 @@ example : (Ring.make 8 6 [1, 2, 3, 4]).save.bind (fun p => .ok (p.1.content, p.2
 
 /-- `io::queue::read(len, data, part)`: the elements are taken off the END of the content, last element first;
     what is left, followed by the elements in their original order, is the old content; all `len` elements
-    are delivered whenever `len * part` bytes are there -/
+    are delivered whenever `len * part` bytes are there, and the loop stops early ONLY when what is left is
+    shorter than one element (so the count is `min len (stored / part)`) -/
 theorem cxx_read (r : Ring) (h : r.WF) (part k : Nat) :
     ∃ r' outs, r.xread part k = .ok (r', outs) ∧ r'.WF ∧ r'.store.length = r.store.length ∧
       r'.content ++ outs.reverse.flatten = r.content ∧ (∀ o ∈ outs, o.length = part) ∧
-      outs.length ≤ k ∧ (k * part ≤ r.len → outs.length = k) :=
+      outs.length ≤ k ∧ (k * part ≤ r.len → outs.length = k) ∧ (outs.length < k → r'.len < part) :=
   xread_spec r h part k
+
+/-- `io::queue::read(len, 0, part)` (no target): `n ≤ len` whole elements are removed from the end, nothing else
+    changes (the loop may stop early at an element stored in two pieces: `mpt_qpop` has no pointer to return) -/
+theorem cxx_read_null (r : Ring) (h : r.WF) (part k : Nat) :
+    ∃ r' n, r.xreadNull part k = .ok (r', n) ∧ r'.WF ∧ r'.store.length = r.store.length ∧ n ≤ k ∧
+      n * part ≤ r.len ∧ r'.content = r.content.take (r.len - n * part) :=
+  xreadNull_spec r h part k
+
+/-- Two-phase operations never refuse late: once `mpt_qpost` / `mpt_qpre` have accepted the length (and moved
+    `len`/`off`), the write through `mpt_queue_set` cannot fail — for data and for zero fill.  (Refusals of the
+    model carry no ring at all: `Res.err`/`Res.null`; that the C functions likewise return before their first
+    write is tied by the differential run, which prints the content after every refused op.) -/
+theorem no_late_refusal (r : Ring) (h : r.WF) (n : Nat) (data : Option (List Byte)) :
+    (∀ r1 k, r.qpost n = .ok (r1, k) → ∃ r' c, r.qpush n data = .ok (r', c)) ∧
+    (∀ r1 k, r.qpre n = .ok (r1, k) → ∃ r' c, r.qunshift n data = .ok (r', c)) := by
+  have hcase : (r.len < r.store.length ∧ n ≤ r.store.length - r.len) ∨
+      (r.store.length - r.len < n ∨ r.len = r.store.length) := by have := h.1; omega
+  constructor
+  · intro r1 k hp
+    rcases hcase with hc | hc
+    · obtain ⟨r', c, he, _⟩ := qpush_ok r h n data hc.1 hc.2
+      exact ⟨r', c, he⟩
+    · rw [qpost_refused r h n hc] at hp; cases hp
+  · intro r1 k hp
+    rcases hcase with hc | hc
+    · obtain ⟨r', c, he, _⟩ := qunshift_ok r h n data hc.1 hc.2
+      exact ⟨r', c, he⟩
+    · rw [qpre_refused r h n hc] at hp; cases hp
 
 /-- `io::queue::peek(len)` (0 = everything): never changes the content (it may re-align the storage), the
     span it returns is a prefix of the content, and it covers the request whenever the request can be met -/
@@ -396,5 +425,287 @@ example : ((Ring.make 4 3 [97, 98, 99]).xpeek 1).bind (fun p => .ok (p.1.content
     = .ok ([97, 98, 99], [97]) := by decide
 example : ((Ring.make 8 6 [1, 2, 3, 4, 5]).xread 2 2).bind (fun p => .ok (p.1.content, p.2))
     = .ok ([1], [[4, 5], [2, 3]]) := by decide
+
+/-! ### The step the drivers run, against the outcomes the property allows (`Deque.allowed`)
+
+`Ring.stepX` (Impl/RingOps.lean) is the function the model driver executes for every op line, incl. the NULL-data
+variants, `find`, `prepare`, `load`, `save` with a short write, and `mpt_message_get` views; `Deque.allowed` is
+what the driver prints as the `S` column and what the real code's answer is judged against.  `stepX_sound`
+says the model's answer is always one of the allowed ones and the ring stays well-formed — for every ring, op
+and operand; `runX_sound` lifts it to every history.  The find needle must be non-empty (the C function
+divides by the element size; both drivers reject an empty needle). -/
+
+open Mpt.Deque (XOp XOut allowed)
+
+def validOp : XOp → Prop
+  | .find needle => needle ≠ []
+  | _ => True
+
+theorem stepX_sound (r : Ring) (h : r.WF) (op : XOp) (hv : validOp op) :
+    (r.stepX op).1.WF ∧
+      ((r.stepX op).2.1, (r.stepX op).1.content) ∈ allowed r.store.length r.frag r.content op := by
+  have hcl := content_length r h.1 h.2
+  have h1 : r.len ≤ r.store.length := h.1
+  have h2 : r.off ≤ r.store.length := h.2
+  cases op with
+  | push n data =>
+    by_cases hc : r.len < r.store.length ∧ n ≤ r.store.length - r.len
+    · obtain ⟨r', c, he, hw, hl, hcn⟩ := qpush_ok r h n data hc.1 hc.2
+      simp only [stepX, he, allowed, Deque.allowedGrow, Deque.push, hcn, setSrc_eq_srcBytes]
+      refine ⟨hw, ?_⟩
+      by_cases hn : n = 0
+      · subst hn; simp [srcBytes_zero]
+      · rw [if_neg hn, if_pos (by omega)]; simp
+    · rw [show r.stepX (.push n data) = (r, .refused, "MissingBuffer") by
+        simp only [stepX, qpush_refused r h n data (by omega), failX, resText]; rfl]
+      refine ⟨h, ?_⟩
+      simp only [allowed, Deque.allowedGrow]
+      by_cases hn : n = 0
+      · rw [if_pos hn]; simp
+      · rw [if_neg hn, if_neg (by omega)]; simp
+  | unshift n data =>
+    by_cases hc : r.len < r.store.length ∧ n ≤ r.store.length - r.len
+    · obtain ⟨r', c, he, hw, hl, hcn⟩ := qunshift_ok r h n data hc.1 hc.2
+      simp only [stepX, he, allowed, Deque.allowedGrow, Deque.unshift, hcn, setSrc_eq_srcBytes]
+      refine ⟨hw, ?_⟩
+      by_cases hn : n = 0
+      · subst hn; simp [srcBytes_zero]
+      · rw [if_neg hn, if_pos (by omega)]; simp
+    · rw [show r.stepX (.unshift n data) = (r, .refused, "MissingBuffer") by
+        simp only [stepX, qunshift_refused r h n data (by omega), failX, resText]; rfl]
+      refine ⟨h, ?_⟩
+      simp only [allowed, Deque.allowedGrow]
+      by_cases hn : n = 0
+      · rw [if_pos hn]; simp
+      · rw [if_neg hn, if_neg (by omega)]; simp
+  | pop n dst =>
+    obtain ⟨hok, hno⟩ := qpop_spec r h n dst
+    simp only [allowed, Deque.allowedTake, Deque.pop, hcl]
+    by_cases hc : n ≤ r.len
+    · rw [if_pos hc]
+      rcases hok hc with he | ⟨hf, he⟩
+      · simp only [stepX, he]
+        refine ⟨⟨by simp only []; omega, h2⟩, ?_⟩
+        rw [content_take r (r.len - n) (by omega)]
+        simp
+      · subst hf
+        simp only [stepX, he, failX]
+        exact ⟨h, by simp⟩
+    · rw [if_neg hc]
+      simp only [stepX, hno (by omega), failX]
+      exact ⟨h, by simp⟩
+  | shift n dst =>
+    obtain ⟨hok, hno⟩ := qshift_spec r h n dst
+    simp only [allowed, Deque.allowedTake, Deque.shift, hcl]
+    by_cases hc : n ≤ r.len
+    · rw [if_pos hc]
+      rcases hok hc with ⟨r', he, hw, _, _, hcn⟩ | ⟨hf, he⟩
+      · simp only [stepX, he, hcn]
+        exact ⟨hw, by simp⟩
+      · subst hf
+        simp only [stepX, he, failX]
+        exact ⟨h, by simp⟩
+    · rw [if_neg hc]
+      simp only [stepX, hno (by omega), failX]
+      exact ⟨h, by simp⟩
+  | crop pos n =>
+    simp only [allowed, Deque.allowedAt, Deque.crop, hcl]
+    by_cases hc : pos + n ≤ r.len
+    · rw [if_pos hc]
+      by_cases hp : pos = 0
+      · subst hp
+        obtain ⟨r', c, he, hw, _, _, hcn⟩ := crop_front r h n (by omega)
+        simp only [stepX, he, hcn]
+        exact ⟨hw, by simp⟩
+      · obtain ⟨r', c, he, hw, _, _, _, hcn⟩ := crop_mid r h pos n hp hc
+        simp only [stepX, he, hcn]
+        exact ⟨hw, by simp⟩
+    · rw [if_neg hc]
+      simp only [stepX, crop_refused r h pos n (by omega), failX]
+      exact ⟨h, by simp⟩
+  | set pos n data =>
+    simp only [allowed, Deque.allowedAt, Deque.set, hcl, srcBytes_length]
+    by_cases hn : n = 0
+    · subst hn
+      have he : r.set pos 0 data = .ok (r, 0) := by unfold Ring.set; simp
+      simp only [stepX, he, srcBytes_zero]
+      refine ⟨h, ?_⟩
+      by_cases hc : pos + 0 ≤ r.len
+      · rw [if_pos hc]; simp
+      · rw [if_neg hc]; simp
+    · by_cases hc : pos + n ≤ r.len
+      · rw [if_pos hc]
+        obtain ⟨r', c, he, hw, _, _, _, hcn⟩ := set_ok r h pos n data (by omega) hc
+        simp only [stepX, he, hcn, setSrc_eq_srcBytes]
+        exact ⟨hw, by simp⟩
+      · rw [if_neg hc]
+        rcases set_refused r h pos n data (by omega) (by omega) with he | he <;>
+        · simp only [stepX, he, failX]
+          exact ⟨h, by simp⟩
+  | get pos n dst =>
+    simp only [allowed, Deque.allowedAt, Deque.get, hcl]
+    by_cases hn : n = 0
+    · subst hn
+      have he : r.get pos 0 dst = .ok (0, []) := by unfold Ring.get; simp
+      simp only [stepX, he]
+      refine ⟨h, ?_⟩
+      by_cases hc : pos + 0 ≤ r.len
+      · rw [if_pos hc]; cases dst <;> simp
+      · rw [if_neg hc]; simp
+    · by_cases hc : pos + n ≤ r.len
+      · rw [if_pos hc]
+        cases dst with
+        | true =>
+          obtain ⟨c, he⟩ := get_ok r h pos n (by omega) hc
+          simp only [stepX, he]
+          exact ⟨h, by simp⟩
+        | false =>
+          obtain ⟨c, he⟩ := get_nodst r h pos n (by omega) hc
+          simp only [stepX, he]
+          exact ⟨h, by simp⟩
+      · rw [if_neg hc]
+        simp only [stepX, get_refused r h pos n dst (by omega) (by omega), failX]
+        exact ⟨h, by simp⟩
+  | align pos =>
+    obtain ⟨r1, he, hw, _, _, hcn, _⟩ := align_spec r h pos
+    simp only [stepX, he, hcn, allowed]
+    exact ⟨hw, by simp⟩
+  | resize n =>
+    obtain ⟨r', he, hw, _, hcn⟩ := resize_spec r h n
+    simp only [stepX, he, hcn, allowed, hcl]
+    refine ⟨hw, ?_⟩
+    by_cases hc : n < r.len
+    · rw [if_pos hc]; simp
+    · rw [if_neg hc, show r.len - n = 0 by omega]; simp
+  | prepare n =>
+    obtain ⟨r', left, he, hw, hcn, _, hov, hno⟩ := prepareC_spec r h n
+    simp only [allowed, hcl]
+    by_cases hc : n > r.store.length - r.len ∧ n - (r.store.length - r.len) > Deque.sizeMax - 8 - r.store.length
+    · obtain ⟨hr, hl⟩ := hov hc
+      subst hr hl
+      rw [if_pos hc]
+      simp only [stepX, he]
+      rw [if_neg (by omega)]
+      exact ⟨h, by simp⟩
+    · obtain ⟨_, hn⟩ := hno hc
+      rw [if_neg hc]
+      simp only [stepX, he]
+      rw [if_pos hn]
+      exact ⟨hw, by simp [hcn]⟩
+  | find needle =>
+    have hne : needle ≠ [] := hv
+    have hpos : 0 < needle.length := List.length_pos_iff.mpr hne
+    have hs := find_spec r h needle hne
+    simp only [allowed, hcl]
+    generalize hf : r.find needle = res at hs
+    match res, hs with
+    | .ok (some a), hs =>
+      obtain ⟨k, hk, ha, hm, hfirst⟩ := hs
+      have hkl : k * needle.length < r.store.length := by
+        have : (k + 1) * needle.length = k * needle.length + needle.length := Nat.succ_mul _ _
+        omega
+      have hkd : k < r.content.length + 1 := by
+        have : k + 1 ≤ (k + 1) * needle.length := Nat.le_mul_of_pos_right _ hpos
+        omega
+      simp only [stepX, hf]
+      rw [ha, logicalPos_physIdx r h _ hkl,
+          findAt_some r.content needle k (by rw [hcl]; exact hk) hm hfirst (r.len + 1) 0 (by omega) (by omega)]
+      exact ⟨h, by simp⟩
+    | .ok none, hs =>
+      simp only [stepX, hf]
+      rw [findAt_none r.content needle (r.len + 1) 0 (fun k _ hk => hs k (by rw [← hcl]; exact hk))]
+      exact ⟨h, by simp⟩
+    | .null, hs =>
+      simp only [stepX, hf, failX]
+      refine ⟨h, ?_⟩
+      have : r.len < needle.length ∨ r.frag = true := by
+        rcases hs with hs | hs
+        · exact Or.inl hs
+        · exact Or.inr hs.1
+      rw [if_pos this]
+      simp
+    | .err _, hs => exact absurd hs (by simp)
+    | .oob, hs => exact absurd hs (by simp)
+    | .fault, hs => exact absurd hs (by simp)
+  | string =>
+    simp only [allowed, hcl]
+    by_cases hc : r.len < r.store.length
+    · obtain ⟨r', he, hw, _, hcn⟩ := string_spec r h hc
+      rw [if_pos hc]
+      simp only [stepX, he, hcn]
+      exact ⟨hw, by simp⟩
+    · rw [if_neg hc]
+      have he : r.string = .null := by
+        unfold Ring.string; simp only [Ring.max]; rw [if_pos (by omega)]
+      simp only [stepX, he, failX]
+      exact ⟨h, by simp⟩
+  | load len avail =>
+    simp only [allowed, hcl]
+    by_cases hc : r.len < r.store.length
+    · obtain ⟨r', he, hw, hcn⟩ := load_spec r len avail h hc
+      rw [if_neg (by omega)]
+      simp only [stepX, he, hcn]
+      exact ⟨hw, by simp [Nat.min_def]⟩
+    · rw [if_pos (by omega)]
+      have he : r.load len avail = .err .BadValue := by
+        unfold Ring.load; rw [empty_none r (by omega)]
+      simp only [stepX, he, failX]
+      exact ⟨h, by simp⟩
+  | save accept =>
+    obtain ⟨r', he, hw, _, hcn⟩ := saveN_spec r h accept
+    have hlen : (r.content.take (min r.len accept)).length = min r.len accept := by
+      rw [List.length_take, hcl]; omega
+    have e : Nat.min r.len accept = min r.len accept := rfl
+    simp only [allowed, hcl, stepX, he, hcn, e, hlen]
+    exact ⟨hw, by simp⟩
+  | mget off take vec =>
+    obtain ⟨hin, hout⟩ := mget_spec r h off take vec
+    simp only [allowed, hcl]
+    by_cases hc : off + take ≤ r.len
+    · rw [if_pos hc]
+      rcases hin hc with ⟨a, b, he, hab⟩ | ⟨hvf, he⟩
+      · simp only [stepX, he, hab]
+        exact ⟨h, by simp⟩
+      · subst hvf
+        simp only [stepX, he, failX]
+        exact ⟨h, by simp⟩
+    · rw [if_neg hc]
+      obtain ⟨e, he⟩ := hout (by omega)
+      simp only [stepX, he, failX]
+      exact ⟨h, by simp⟩
+
+/-- M run over a history of driver ops: final ring and the (outcome, content afterwards) pairs -/
+def runX (r : Ring) : List XOp → Ring × List (XOut × List Byte)
+  | [] => (r, [])
+  | op :: ops =>
+    let r' := (r.stepX op).1
+    let rest := runX r' ops
+    (rest.1, ((r.stepX op).2.1, r'.content) :: rest.2)
+
+/-- the model's answers along a history are allowed answers, each judged at the state the history reached -/
+def AllowedRun : Ring → List XOp → Prop
+  | _, [] => True
+  | r, op :: ops =>
+    ((r.stepX op).2.1, (r.stepX op).1.content) ∈ allowed r.store.length r.frag r.content op ∧
+      AllowedRun (r.stepX op).1 ops
+
+/-- **Every history** of driver ops (push/unshift/pop/shift with or without data, crop, set, get, align, resize,
+    prepare, find, string, load, save with short writes, message views): the ring stays well-formed and every
+    answer of the model is one the property allows at that point.  Together with the differential run (the real
+    code's answer is checked against the same `allowed` list and against the model's answer) this is the tie
+    "code ⊑ spec" for the `S` column the driver prints. -/
+theorem runX_sound (r : Ring) (h : r.WF) (ops : List XOp) (hv : ∀ op ∈ ops, validOp op) :
+    (runX r ops).1.WF ∧ AllowedRun r ops := by
+  induction ops generalizing r with
+  | nil => exact ⟨h, trivial⟩
+  | cons op ops ih =>
+    obtain ⟨hw, hm⟩ := stepX_sound r h op (hv op (List.mem_cons_self))
+    obtain ⟨hw', hr⟩ := ih (r.stepX op).1 hw (fun o ho => hv o (List.mem_cons_of_mem _ ho))
+    exact ⟨hw', hm, hr⟩
+
+example : ((Ring.make 4 3 [97, 98, 99]).stepX (.mget 1 2 true)).2.1 = .ok [98, 99] := by decide
+example : ((Ring.make 4 3 [97, 98, 99]).stepX (.save 2)).2.1 = .okN 2 [97, 98]
+    ∧ ((Ring.make 4 3 [97, 98, 99]).stepX (.save 2)).1.content = [99] := by decide
+example : ((Ring.make 4 3 [97, 98, 99]).stepX (.pop 3 false)).2.1 = .refused := by decide
 
 end Mpt.C13
